@@ -24,7 +24,8 @@ RULE = ("tables with 2-4 retained snapshots, aged orphans, one open transaction 
         "marker calls). quick samples, thorough sweeps every k and every file. One evaluation = one (table, fault). "
         "Oracle: no reachable or marker-protected file, and no file younger than the grace period, is ever deleted; if the collection raises, it performs no "
         "delete after the untrusted input was delivered; if it returns normally every protection was kept. "
-        "Non-trivial = the fault fired / the damaged file was read by the collector.")
+        "Non-trivial = the fault fired / the damaged file was read by the collector. Listing anomalies are an escaping entry at the "
+        "start / middle / end of a listing, or list_files of an existing directory raising FileNotFoundError / NotADirectoryError / PermissionError.")
 ASSUMPTIONS = common.BASE_ASSUMPTIONS + [
     "deletions of true orphans made in a phase that completed before the untrusted input was delivered are not counted "
     "against a collection that later raises",
